@@ -419,6 +419,23 @@ func (te *taskEnv) exec(op *Op, rec *OpRec) {
 			}
 			mv.obj.(tally.Gauge).Update(f64from(op.F))
 		}
+	case "updspam":
+		// an updater that does not stop: once some task has called the root's Close
+		// it keeps updating its gauge until a Close call has returned. Whether
+		// Close returns must not depend on the updaters pausing.
+		if mv := te.metrics[op.M]; mv != nil && mv.kind == "gauge" {
+			rec.Obj, rec.Ptr = mv, mv.ptr
+			for i := 0; i < 300 && !env.isRootCloseInvoked(); i++ {
+				simrt.Yield()
+			}
+			if !env.isRootCloseInvoked() {
+				return // nobody closes in this program
+			}
+			for i := 0; !env.isRootClosed(); i++ {
+				mv.obj.(tally.Gauge).Update(float64(i) + 0.03125)
+				simrt.Yield() // a scheduling point even if Update has none of its own
+			}
+		}
 	case "rec":
 		if mv := te.metrics[op.M]; mv != nil && mv.kind == "timer" {
 			rec.Obj, rec.Ptr = mv, mv.ptr
@@ -471,6 +488,7 @@ func (te *taskEnv) exec(op *Op, rec *OpRec) {
 		s := te.scope(0)
 		rec.Ptr, rec.Obj = s.ptr, s
 		if env.RootCloser != nil {
+			env.setRootCloseInvoked()
 			if err := env.RootCloser.Close(); err != nil {
 				rec.Err = err.Error()
 			}
